@@ -26,3 +26,17 @@ theorem C09_failure_cache_by_key (c : FCfg) (s : FState) (h : Reachable c s) (k 
   C02_failure_cache_provenance c s h k e E he
 
 end Cache
+
+namespace Cache
+
+/-- **C09_skeleton_key_handling** — the text of the code does what the machine's representation of keys presupposes (facts
+    re-read from the source by `tools/gokernel` on every run): the key-lock table of both frontends is indexed by
+    `string(key)` at every access of `Get` (so it is a function of the KEY, as `FState.keyLocks : Key → _` says, not of its
+    hash); `Get` copies the key before the `go` statement of the background update (so a thread's `key` is a value, as
+    `C09_key_never_changes` says of the machine); and every backend `Write` stores a slice it made and filled itself
+    (so a stored key never aliases the caller's buffer). -/
+theorem C09_skeleton_key_handling :
+    Gen.keyLocksByKey = true ∧ Gen.keyLocksByKeyOf = true ∧ Gen.bgKeyCopied = true ∧ Gen.bgKeyCopiedOf = true ∧
+    Gen.storedKeyCopied = true ∧ Gen.storedKeyCopiedOf = true ∧ Gen.storedKeyCopiedSync = true := by decide
+
+end Cache
